@@ -779,6 +779,7 @@ def run_task(task):
     if d or w["select"] in ("unknown", "unsupported") or w.get("iter_kind") == "gen_raise":
         stats.add("nontrivial", common.short(repr(key)))
         stats.inc("probe.defect_runs")
+        stats.inc(f"probe.defect_{d or w['select'] if d or w['select'] in ('unknown', 'unsupported') else 'iter_raise'}")
     if base["exc"] is None and w["op"] != "write_input" and not d:
         stats.add("valid_workloads", f"{w['op']}:{w['fmt']}")
     sample = None
